@@ -43,3 +43,29 @@ q.patch
   let cfg := {| c_fuzz := 0; c_backup := OnFail; c_backup_count := BLast 100; c_dry_run := false; c_default_mode := 420; c_preload := false |} in
   cmd_push cfg [] GAll fs = (fs, RErr EMismatch).
 Proof. vm_compute. reflexivity. Qed.
+
+(* applied-patches that is there but cannot be read as a list of patches (a directory in its place, an option the
+   series syntax does not know, ...): refused as well, never taken for "nothing applied" *)
+Theorem C17_unreadable_applied_refused :
+  forall fs g,
+  match fs_read fs [b ".pc"; b "applied-patches"] with
+  | inl af => (forall applied, read_series (f_data af) <> ROk applied) /\ read_series (f_data af) <> RErr EOutOfModel
+  | inr e => e <> NotFound
+  end ->
+  resolve_range fs g = RErr EMismatch.
+Proof. exact refuse_unreadable_applied. Qed.
+Print Assumptions C17_unreadable_applied_refused.
+
+(* Non-vacuity: an applied-patches line with an unknown option is refused without touching anything (before the fix
+   in cmd.rs the file was silently ignored and the series applied from its start). *)
+Example C17_witness_unreadable :
+  let fs := {| fs_files := [([b "series"], {| f_data := b "a.patch
+"; f_mode := 420 |});
+                            ([b ".pc"; b "applied-patches"], {| f_data := b "zzz.patch -x
+"; f_mode := 420 |});
+                            ([b "f"], {| f_data := b "a
+"; f_mode := 420 |})];
+               fs_dirs := [[b ".pc"]]; fs_log := []; fs_fault := None; fs_fired := false |} in
+  let cfg := {| c_fuzz := 0; c_backup := OnFail; c_backup_count := BLast 100; c_dry_run := false; c_default_mode := 420; c_preload := false |} in
+  cmd_push cfg [] GAll fs = (fs, RErr EMismatch).
+Proof. vm_compute. reflexivity. Qed.
